@@ -9,6 +9,8 @@ import Mathlib.Algebra.BigOperators.Ring.Finset
 import Mathlib.Algebra.Order.BigOperators.Group.List
 import Mathlib.Tactic.Linarith
 import Mathlib.Tactic.FieldSimp
+import Mathlib.Data.List.Flatten
+import Mathlib.Data.List.Basic
 
 namespace PM.C03
 open PM.Fock PM.Dist PM.SimSpec
@@ -492,5 +494,74 @@ theorem normalize_congr {a b : D} (h : Eqv a b) : Eqv (normalize a) (normalize b
   by_cases h0 : mass b = 0
   · simp only [h0, ↓reduceIte]; exact h t
   · simp only [h0, ↓reduceIte, get_scale, h t]
+
+/-! ### the amplitude threshold of `_merge_sv` -/
+
+theorem mergeSVθ_eq_filter (thr : ℚ) (a : AmpsF) (b : List (Fock × GQ × ℚ)) :
+    mergeSVθ thr a b = (mergeAllF a b).filter (keepF thr) := by
+  unfold mergeSVθ mergeAllF
+  rw [List.filter_flatMap]
+  congr 1
+  funext x
+  induction b with
+  | nil => rfl
+  | cons y ys ih =>
+    by_cases h : thr < GQ.normSq (x.2.1 * y.2.1) / (x.2.2 * y.2.2)
+    · simp only [List.filterMap_cons, List.map_cons, List.filter_cons, keepF, sqF, h, if_true,
+        decide_true, ih]
+    · simp only [List.filterMap_cons, List.map_cons, List.filter_cons, keepF, sqF, h, if_false,
+        decide_false, ih]
+      rfl
+
+theorem keepF_mono {thr thr' : ℚ} (h : thr ≤ thr') (z : List Fock × GQ × ℚ) :
+    keepF thr' z = true → keepF thr z = true := by
+  simp only [keepF, decide_eq_true_eq]
+  intro h'
+  exact lt_of_le_of_lt h h'
+
+theorem mergeSVθ_mono {thr thr' : ℚ} (h : thr ≤ thr') {a a' : AmpsF} (ha : a.Sublist a')
+    (b : List (Fock × GQ × ℚ)) : (mergeSVθ thr' a b).Sublist (mergeSVθ thr a' b) := by
+  rw [mergeSVθ_eq_filter, mergeSVθ_eq_filter]
+  have h1 : ((mergeAllF a b).filter (keepF thr')).Sublist ((mergeAllF a b).filter (keepF thr)) :=
+    List.monotone_filter_right _ (fun z hz => keepF_mono h z hz)
+  exact h1.trans ((ha.flatMap _).filter _)
+
+/-- one step of the fold of `evolveTermθ` -/
+def stepθ {m : ℕ} (U : Matrix (Fin m) (Fin m) GQ) (thr : ℚ) (acc : AmpsF × Bool) (s : Fock) :
+    AmpsF × Bool :=
+  if s.sum = 0 then (acc.1.map fun x => (x.1 ++ [s], x.2.1, x.2.2), acc.2)
+  else if acc.2 then (mergeSVθ thr acc.1 (groupEvolveF U s), true)
+  else (acc.1.flatMap fun x => (groupEvolveF U s).map fun y =>
+    (x.1 ++ [y.1], x.2.1 * y.2.1, x.2.2 * y.2.2), true)
+
+theorem evolveTermθ_eq_foldl {m : ℕ} (U : Matrix (Fin m) (Fin m) GQ) (thr : ℚ) (gs : List Fock) :
+    evolveTermθ U thr gs = (gs.foldl (stepθ U thr) ([([], 1, 1)], false)).1 := rfl
+
+theorem stepθ_mono {m : ℕ} (U : Matrix (Fin m) (Fin m) GQ) {thr thr' : ℚ} (h : thr ≤ thr')
+    {acc acc' : AmpsF × Bool} (h1 : acc.1.Sublist acc'.1) (h2 : acc.2 = acc'.2) (s : Fock) :
+    (stepθ U thr' acc s).1.Sublist (stepθ U thr acc' s).1 ∧
+      (stepθ U thr' acc s).2 = (stepθ U thr acc' s).2 := by
+  unfold stepθ
+  by_cases hs : s.sum = 0
+  · simp only [hs, if_true]
+    exact ⟨h1.map _, h2⟩
+  · simp only [hs, if_false]
+    rw [h2]
+    by_cases hb : acc'.2 = true
+    · simp only [hb, if_true]
+      exact ⟨mergeSVθ_mono h h1 _, trivial⟩
+    · have hb' : acc'.2 = false := by simpa using hb
+      simp only [hb', Bool.false_eq_true, if_false]
+      exact ⟨h1.flatMap _, trivial⟩
+
+theorem foldl_stepθ_mono {m : ℕ} (U : Matrix (Fin m) (Fin m) GQ) {thr thr' : ℚ} (h : thr ≤ thr')
+    (gs : List Fock) : ∀ {acc acc' : AmpsF × Bool}, acc.1.Sublist acc'.1 → acc.2 = acc'.2 →
+    (gs.foldl (stepθ U thr') acc).1.Sublist (gs.foldl (stepθ U thr) acc').1 := by
+  induction gs with
+  | nil => intro acc acc' h1 _; exact h1
+  | cons s rest ih =>
+    intro acc acc' h1 h2
+    simp only [List.foldl_cons]
+    exact ih (stepθ_mono U h h1 h2 s).1 (stepθ_mono U h h1 h2 s).2
 
 end PM.C03
